@@ -5,6 +5,7 @@ grammar is deliberately conventional (what protoc + api-linter would accept): a 
 input outside a property's quantifier is worse than a missed exotic shape.
 """
 import copy
+import os
 
 NOUNS = ["Widget", "Gadget", "Shelf", "Book", "Route", "Sprocket", "Crate", "Lamp", "Valve", "Badge"]
 PLURAL = {n: n.lower() + ("es" if n.endswith(("s", "x")) else "s") for n in NOUNS}
@@ -966,20 +967,23 @@ def broken_twin(spec):
 
 def broken_twin_in_build(spec):
     """An EDITED copy of the API whose generation dies INSIDE API.build, after the first (types) pass has seen every
-    file: a new message in front (every descriptor path shifts), other comments, and one more long-running method whose
-    operation_info names a type that does not exist.  What a user has just before fixing the proto and regenerating."""
+    file and before the second pass reaches most of them: other comments everywhere, a new message in front of the first
+    file (every descriptor path there shifts), and a new DRAFT proto file, listed first, whose only RPC is long-running
+    with an operation_info naming a type that does not exist.  What a user has just before deleting the draft (or
+    fixing it) and regenerating."""
     import copy
     bad = copy.deepcopy(spec)
     bad["comment_salt"] = "as edited"
     f0 = bad["files"][0]
     f0["messages"].insert(0, {"name": "ZzDraftNote", "fields": [{"name": "text", "number": 1, "type": "string"}]})
-    for fs in reversed(bad["files"]):
-        if fs.get("services"):
-            svc = fs["services"][-1]
-            any_msg = "." + fs["package"] + "." + f0["messages"][0]["name"] if fs is f0 else svc["methods"][0]["input"]
-            svc["methods"].append({"name": "ZzDraftRebuild", "input": any_msg, "output": ".google.longrunning.Operation",
-                                   "lro": {"response_type": "NoSuchDraftType", "metadata_type": "NoSuchDraftType"}})
-            break
+    pkg = f0["package"]
+    d = os.path.dirname(f0["name"])
+    draft = {"name": (d + "/" if d else "") + "aaa_draft.proto", "package": pkg,
+             "messages": [{"name": "ZzDraftRebuildRequest", "fields": [{"name": "name", "number": 1, "type": "string"}]}],
+             "services": [{"name": "ZzDraftService", "host": "draft.example.com", "methods": [
+                 {"name": "ZzDraftRebuild", "input": "." + pkg + ".ZzDraftRebuildRequest", "output": ".google.longrunning.Operation",
+                  "lro": {"response_type": "NoSuchDraftType", "metadata_type": "NoSuchDraftType"}}]}]}
+    bad["files"].insert(0, draft)
     return bad
 
 
